@@ -102,6 +102,7 @@ where
         ctx.eval(1);
         let ok = (sp.native_ok)(b);
         let case = json!({"kind": "serde", "type": sp.name, "bytes": hex(b)});
+        ctx.case(&case.to_string());
         // reference wire forms
         let mut want_bin = Vec::new();
         if sp.length_prefixed {
@@ -196,6 +197,7 @@ where
             ctx.eval(1);
             let should = s.len() == 32 && s.iter().all(|e| matches!(e, El::Byte(_)));
             let case = json!({"kind": "serde_script", "type": sp.name, "script": name});
+            ctx.case(&case.to_string());
             match guarded(|| script_de::<T>(&s).is_some()) {
                 Ok(acc) => {
                     if acc != should {
@@ -232,6 +234,7 @@ where
         for (name, js, should) in jsons {
             ctx.eval(1);
             let case = json!({"kind": "serde_json_shape", "type": sp.name, "shape": name, "json": js});
+            ctx.case(&case.to_string());
             match guarded(|| serde_json::from_str::<T>(&js).is_ok()) {
                 Ok(acc) => {
                     if acc != should {
@@ -340,6 +343,5 @@ pub fn run(ctx: &Ctx) {
     }
     // EdwardsPoint: a non-canonical but accepted encoding must deserialise to the same *point*
     // and re-serialise canonically (checked above through compress()).
-    ctx.nontriv(ctx.evaluations.load(std::sync::atomic::Ordering::Relaxed));
     ctx.sample_tag("serde", json!({"type": "SigningKey", "input": "JSON array of 32 valid bytes followed by \"x\"", "expected": "rejected"}));
 }
